@@ -24,6 +24,7 @@ func init() {
 		Trusted:   "go/types+go/ssa; C01 for the meaning of Verify; purity of header observers",
 		Run:       runC15,
 		Imports: []Import{
+			{From: "C01.d", As: "C15.g", Why: "the bifurcation is started only for a soft failure: Verify has to flag every failure of a non-adjacent header as soft, whatever kind of error the header type's own Verify reports, or a head with a verifiable path is refused outright"},
 			{From: "C03.b", As: "C15.f", Why: "a soft-failing head is accepted only through the bifurcation: every other way into the subjective-head setter must carry a successful verification, or the bifurcation is bypassed"},
 		},
 	})
